@@ -128,6 +128,9 @@ def eval (f : FsCfg) (s : Sys) (c : Call) : List String :=
       t (existsPlain w a && !existsPlain w b && moveCollides w a b) "moveOntoUsedKey"
     | .open_ _ n => t (n == []) "emptyName"
     | .symlink _ _ => ["symlinkCall"]
+    | .hwriteString id _ => t (match s.getHandle id with
+        | some h => h.bufClosed
+        | none => false) "useAfterSync"
     | .hwrite id _ => t (match s.getHandle id with
         | some h => h.bufClosed
         | none => false) "useAfterSync"
